@@ -97,3 +97,31 @@ Check C02_outcome_unconditional_refuted_F14 :
 Check C02_hypotheses_fail_F14 : forall r apps,
   run_prover_trace f14_prog 400 = Ok (r, apps) ->
   ~ apps_real (to_prog f14_prog) apps /\ ~ apps_valid (to_prog f14_prog) apps.
+
+(** F16 refutation witnesses *)
+From BB Require Import F16Witness.
+Check C02_F16_witness :
+  from_str f16_text = Some f16_prog /\
+  run_prover f16_prog 1000 = Ok (mkRes spnout 153 75 1 6 [(5, 134)] None) /\
+  halts_at (to_prog f16_prog) init_config 166 (20, 2) /\
+  (forall n sl, halts_at (to_prog f16_prog) init_config n sl -> n = 166%nat /\ sl = (20, 2)) /\
+  (forall n, (166 < n)%nat -> tm_steps (to_prog f16_prog) n init_config = None) /\
+  never_spins_out (to_prog f16_prog) init_config /\
+  (forall n, ~ spins_out_at (to_prog f16_prog) init_config n).
+Check C02_verdict_refuted_F16 :
+  exists comp lim r apps n' sl',
+    run_prover_trace comp lim = Ok (r, apps) /\ r_result r = spnout /\
+    halts_at (to_prog comp) init_config n' sl' /\
+    never_spins_out (to_prog comp) init_config /\
+    ~ (exists n q z, tm_steps (to_prog comp) n init_config = Some (q, z) /\
+         spinout_cfg (to_prog comp) (q, z) /\
+         spins_out_at (to_prog comp) init_config n /\ marks_of z = r_marks r).
+Check C02_outcome_unconditional_refuted_F16 :
+  ~ (forall comp lim r apps,
+       run_prover_trace comp lim = Ok (r, apps) -> r_result r = spnout ->
+       exists n q z, tm_steps (to_prog comp) n init_config = Some (q, z) /\
+         spinout_cfg (to_prog comp) (q, z) /\
+         spins_out_at (to_prog comp) init_config n /\ marks_of z = r_marks r).
+Check C02_hypotheses_fail_F16 : forall r apps,
+  run_prover_trace f16_prog 1000 = Ok (r, apps) ->
+  ~ apps_real (to_prog f16_prog) apps /\ ~ apps_valid (to_prog f16_prog) apps.
